@@ -1255,7 +1255,15 @@ impl Machine {
                     let value_cell = HeapCellValue::from(u64::from(self.machine_st.trail[i + 1]));
 
                     match self.indices.global_variables.get_mut(&key) {
-                        Some((_, loc)) => *loc = Some(value_cell),
+                        Some((_, loc)) => {
+                            // If the entry has no heap value any more, a bb_put/2 has
+                            // replaced it since the trailed bb_b_put/2: that value
+                            // persists and must not be shadowed by the older
+                            // backtrackable one.
+                            if loc.is_some() {
+                                *loc = Some(value_cell);
+                            }
+                        }
                         None => unreachable!(),
                     }
                 }
